@@ -71,6 +71,7 @@ static vp_arr_t vp_I;                       /* index */
 static vp_arr_t vp_B0, vp_B1, vp_B2, vp_B3; /* data blocks */
 static vp_arr_t *const vp_B[4] = { &vp_B0, &vp_B1, &vp_B2, &vp_B3 };
 static const int vp_bn[4] = { VP_S0, VP_S1, VP_S2, VP_S3 };
+static vp_arrslot_t vp_slot0, vp_slot1, vp_slot2, vp_slot3; /* one per block */
 
 static uint8_t vp_sep[4][1];
 static uint8_t vp_hnd[4][1];
@@ -116,10 +117,10 @@ vp_blockfn(void *arg, const ldb_readopt_t *options, const ldb_slice_t *handle) {
     vp_any_error = 1;
 
   switch (id) {
-    case 0: return vp_arriter_create(&vp_B0, ldb_bytewise_comparator);
-    case 1: return vp_arriter_create(&vp_B1, ldb_bytewise_comparator);
-    case 2: return vp_arriter_create(&vp_B2, ldb_bytewise_comparator);
-    default: return vp_arriter_create(&vp_B3, ldb_bytewise_comparator);
+    case 0: return vp_arriter_create_in(&vp_B0, ldb_bytewise_comparator, &vp_slot0);
+    case 1: return vp_arriter_create_in(&vp_B1, ldb_bytewise_comparator, &vp_slot1);
+    case 2: return vp_arriter_create_in(&vp_B2, ldb_bytewise_comparator, &vp_slot2);
+    default: return vp_arriter_create_in(&vp_B3, ldb_bytewise_comparator, &vp_slot3);
   }
 }
 
